@@ -1,6 +1,91 @@
-"""C10 — encoding reversible and order-preserving: theorems KB.Props.C10 + `coder` correspondence."""
-from .. import core
+"""C10 — encoding reversible and order-preserving: theorems KB.Props.C10 + `coder` correspondence, and the range-bound
+encoding (`backend.encodeRangeBound`, unexported: observed through `GetPartitions` of a one-partition engine, which
+answers exactly [encodeRangeBound(key), encodeRangeBound(end)]) judged by the property itself: for every sampled key over
+the alphabet and revision, the record lies between the encoded bounds iff the raw key lies between the raw bounds."""
+import struct
+
+from .. import core, hist
 from ..gen import hx, rand_key, rng_for
+
+MAGIC = b"\x57\xfb\x80\x8b"
+
+
+def enc(k, rev):
+    return MAGIC + k + b"$" + struct.pack(">Q", rev)
+
+
+def rand_bound(r, k):
+    """a raw range bound related to the key k: the key, its successor, any low byte behind it or behind a prefix of it,
+    a low byte in the middle, a bound starting with a low byte, arbitrary bytes"""
+    x = r.random()
+    if x < 0.15:
+        return k
+    if x < 0.25:
+        return k + b"\x00"
+    if x < 0.55:
+        return k + r.choice(hist.LOW_TAILS)
+    if x < 0.65:
+        cut = r.randint(0, len(k))
+        return k[:cut] + bytes([r.randint(0, 0x24)]) + k[cut:] + bytes(r.randint(0, 255) for _ in range(r.randint(0, 2)))
+    if x < 0.75:
+        return r.choice(hist.LOW_HEADS) + (k if r.random() < 0.5 else b"")
+    if x < 0.85:
+        return k + rand_key(r, True, 2)
+    return bytes(r.randint(0, 255) for _ in range(r.randint(1, 6)))
+
+
+def gen_bound_script(r, n):
+    lines = [hist.cfg_line("memkv")]
+    meta = []
+    for _ in range(n):
+        k = rand_key(r, True, 5)
+        a, b = rand_bound(r, k), rand_bound(r, r.choice([k, k, rand_key(r, True, 5)]))
+        lines.append("parts %s %s" % (hx(a), hx(b)))
+        meta.append(k)
+    return lines, meta
+
+
+def probes(a, b, k):
+    """keys over the alphabet around the bounds: the key, prefixes of the bounds up to their first low byte, those with
+    the smallest / largest alphabet byte appended, neighbours"""
+    out = set([k, b"", b"\x25", b"\xff"])
+    for x in (a, b, k):
+        p = bytearray()
+        for c in x:
+            if c <= 0x24:
+                break
+            p.append(c)
+        p = bytes(p)
+        for y in (p, x if all(c > 0x24 for c in x) else p):
+            out.update([y, y + b"\x25", y + b"\xff", y + b"/", y[:-1]])
+            if y and y[-1] < 0xff:
+                out.add(y[:-1] + bytes([y[-1] + 1]))
+            if y and y[-1] > 0x25:
+                out.add(y[:-1] + bytes([y[-1] - 1]))
+    return [p for p in out if all(c > 0x24 for c in p)]
+
+
+def bound_oracle(case):
+    """the property on the implementation's transcript alone"""
+    for i, (ln, out) in enumerate(zip(case.lines, case.impl)):
+        t, o = ln.split(), out.split()
+        if t[0] != "parts" or len(o) != 2 or "," not in o[1]:
+            continue
+        a, b = hist.unhx(t[1]), hist.unhx(t[2])
+        ps = o[1].split(",")
+        ea, eb = hist.unhx(ps[0]), hist.unhx(ps[-1])
+        if a < b and ea > eb:
+            return "line %d: %s -> %s: raw bounds ascend, encoded bounds descend" % (i + 1, ln, out)
+        for k in probes(a, b, case.meta["keys"][i - 1]):
+            for rev in (0, 1, 2 ** 64 - 1):
+                e = enc(k, rev)
+                if (ea <= e) != (a <= k):
+                    return ("line %d: %s -> %s: the record (%s, %d) is %s the encoded lower bound, the raw key is %s the raw bound"
+                            % (i + 1, ln, out, hx(k), rev, "at/above" if ea <= e else "below", "at/above" if a <= k else "below"))
+                if (e < eb) != (k < b):
+                    return ("line %d: %s -> %s: the record (%s, %d) is %s the encoded upper bound, the raw key is %s the raw bound"
+                            % (i + 1, ln, out, hx(k), rev, "below" if e < eb else "at/above", "below" if k < b else "at/above"))
+    return None
 
 REVS = [0, 1, 2, 255, 256, 1000, 2 ** 32, 2 ** 63, 2 ** 64 - 1]
 
@@ -31,12 +116,15 @@ def gen_script(r, n, malformed):
             b = bytes(r.randint(0, 255) for _ in range(r.choice([0, 7, 8, 8, 9, 9, 10])))
             lines.append("prev %s" % hx(b))
         else:
-            # decode: well-formed, truncated, wrong magic, wrong split byte
-            import struct
+            # decode: well-formed, truncated (down to nothing: /repo 5ace897), wrong magic, wrong split byte
             ik = b"\x57\xfb\x80\x8b" + k1 + b"$" + struct.pack(">Q", r1)
             m = r.random()
             if m < 0.2:
                 ik = ik[:r.randint(0, len(ik))]
+            elif m < 0.26:
+                ik = ik[:r.choice([0, 1, 3, 4, 5, 8, 9, 12, 13])]
+            elif m < 0.28:
+                ik = (b"\x57\xfb\x80\x8b" + b"$" + struct.pack(">Q", r1))[:r.choice([12, 13])]
             elif m < 0.3:
                 ik = b"\x57\xfb\x80\x8c" + ik[4:]
             elif m < 0.4 and len(ik) >= 9:
@@ -48,11 +136,12 @@ def gen_script(r, n, malformed):
 def oracle(case):
     """C10 on the implementation's transcript alone: round trip and order on the sampled points.
     Returns a description of a failing input or None."""
-    import struct
     enc = {}
     for ln, out in zip(case.lines, case.impl):
         t = ln.split()
         o = out.split()
+        if t[0] == "dec" and o[:2] == ["dec", "panic"]:
+            return "Decode(%s) indexes out of range (a key too short to be an internal key must be reported as an error)" % t[1]
         if t[0] == "enc" and len(o) == 2:
             k = bytes.fromhex(t[1]) if t[1] != "-" else b""
             want = b"\x57\xfb\x80\x8b" + k + b"$" + struct.pack(">Q", int(t[2]))
@@ -97,6 +186,22 @@ def check(rep, tier, seed):
                 p = core.write_replay("C10", "roundtrip", text="enc %s %s then dec gives: %s" % (t[1], t[2], out))
                 rep.violation(p)
                 return
+    # the range-bound encoding, through GetPartitions of a one-partition engine
+    bcases = []
+    for i in range(12 if tier == "quick" else 200):
+        r = rng_for(seed, "c10b/%d" % i)
+        lines, keys = gen_bound_script(r, 120 if tier == "quick" else 600)
+        bcases.append(core.Case("backend", lines, {"keys": keys, "kind": "bounds"}))
+    core.run_cases(bcases)
+    for c in bcases:
+        rep.count_case(c)
+        bad = bound_oracle(c)
+        if bad:
+            rep.violation(core.write_replay("C10", "range-bound", case=c, text="# " + bad))
+            return
+        if c.diff() is not None:
+            core.handle_diff(rep, "C10", "correspondence", c)
+            return
     for c in cases + second:
         d = c.diff()
         bad = oracle(c) if c in cases else None
@@ -108,4 +213,4 @@ def check(rep, tier, seed):
             # model and implementation differ; the oracle found nothing on the sampled points
             rep.violation(core.write_replay("C10", "correspondence", case=c), no_input=True)
             return
-    rep.assumptions.append("keys over the documented alphabet (every byte > '$'); revisions < 2^64")
+    rep.assumptions.append("keys over the documented alphabet (every byte > '$'); revisions < 2^64; range bounds: arbitrary bytes")
